@@ -41,7 +41,7 @@ SHAPES_THOROUGH = SHAPES_QUICK + [(5,), (3, 2), (2, 3), (0, 3)]
 
 COMMONS = ["omit", 0, 1, 2, 3]          # abstract index into the embedding; 3 = absent from the data
 MAPPINGS = ["none", "perm", "many1", "many2", "allone"]
-READBACK = ["default", "int64", "minimal", "map", "map+int64"]
+READBACK = ["default", "int64", "minimal", "map", "map+int64", "map-many"]
 
 
 def describe(tier):
@@ -148,8 +148,11 @@ def run_one(arr, emb, common_sel, use_counts, map_kind, rb, in_minimal, acc, ext
         if not (ii.min <= int(idx.common) <= ii.max):
             # library-chosen common outside what the caller's dtype holds can only be a data value; cannot happen when present covers it
             pass
-    elif rb in ("map", "map+int64"):
+    elif rb in ("map", "map+int64", "map-many"):
         m2 = {v: TARGETS[i % len(TARGETS)] + (i // len(TARGETS)) for i, v in enumerate(universe)}
+        if rb == "map-many":
+            # a many-to-one read-back mapping: every value of the universe goes to one of two targets
+            m2 = {v: TARGETS[i % 2] for i, v in enumerate(universe)}
         kw["mapping"] = m2
         if rb == "map+int64":
             kw["dtype"] = numpy.int64
@@ -226,8 +229,10 @@ def rowscan_configs(tier):
     cfgs = []
     # (79,)/(81,) and (39, 3) sit just on either side of the strategy threshold (5 values / 100 = 5% uncommon cells)
     shapes = [((80,), 4), ((79,), 4), ((81,), 4), ((100,), 4), ((100,), 5), ((40, 3), 5), ((40, 3), 6), ((39, 3), 6), ((60, 2), 6)]
+    # beyond block sizes a chunked scan might use (2^14, 2^16 rows): only a few arrays and options each (see run_block)
+    shapes += [((16385,), 5), ((20000,), 5), ((70000,), 6), ((35001, 2), 6)]
     if tier == "thorough":
-        shapes += [((120,), 6), ((60, 2), 5)]
+        shapes += [((120,), 6), ((60, 2), 5), ((131073,), 5), ((300000,), 6)]
     embs = ROWSCAN_EMBS  # dominant, 5 others, absent
     for si, (shape, k) in enumerate(shapes):
         for ei in range(len(embs)):
@@ -386,14 +391,18 @@ def run_block(family, p, acc):
     emb7 = ROWSCAN_EMBS[p["ei"]]
     shape = tuple(p["shape"])
     first = True
-    for a, cells, vals in rowscan_arrays(shape, p["k"], emb7, p["dup"]):
+    big = int(numpy.prod(shape)) >= 10000
+    arrays = rowscan_arrays(shape, p["k"], emb7, p["dup"])
+    if big:
+        arrays = itertools.islice(arrays, 0, None, 19)     # a few slot subsets / rotations only
+    for a, cells, vals in arrays:
         # options: common omitted / dominant / a rare present value / absent;  counts; mapping none / many-to-one / injective
         present = sorted(set(int(x) for x in a.flat))
-        for cs in ("omit", "dominant", "rare", "absent"):
+        for cs in (("omit", "absent") if big else ("omit", "dominant", "rare", "absent")):
             common = {"omit": None, "dominant": emb7[0], "rare": vals[0], "absent": emb7[6]}[cs]
             for uc in (False, True):
-                for mk in ("none", "many", "inj", "allone"):
-                    for rb in ("default", "int64", "map"):
+                for mk in (("none", "many") if big else ("none", "many", "inj", "allone")):
+                    for rb in (("default",) if big else ("default", "int64", "map")):
                         ok = rowscan_one(a, emb7, common, cs, uc, mk, rb, cells, vals, acc, probe=first)
                         first = False
                         if a.ndim == 2 and not uc and rb == "default" and mk in ("none", "inj"):
